@@ -17,6 +17,7 @@ package main
 // Crem/Model/Anneal.lean with Float temperatures (same sequential multiplications).
 
 import (
+	cremerrors "github.com/LindsayBradford/crem/pkg/errors"
 	"errors"
 	"fmt"
 	"math"
@@ -216,7 +217,7 @@ func (ac annealCase) siteTok() string {
 
 func buildInnerExplorer(kind string) explorer.Explorer {
 	switch kind {
-	case "kirk":
+	case "kirk", "kirki":
 		return kirkpatrick.New()
 	case "supp":
 		return suppapitnarm.New().WithCoolant(coolingSuppapitnarm.NewCoolant())
@@ -224,6 +225,23 @@ func buildInnerExplorer(kind string) explorer.Explorer {
 		return suppapitnarm.New().WithCoolant(averaged.NewCoolant())
 	}
 	return new(null.Explorer)
+}
+
+// invalidatingDumb is crem's dumb model with a validity verdict that is false for a fixed pseudo-random subset of proposals.
+type invalidatingDumb struct {
+	*dumb.Model
+	calls   int
+	pattern uint64
+}
+
+func (m *invalidatingDumb) ChangeIsValid() (bool, *cremerrors.CompositeError) {
+	m.calls++
+	if (m.pattern>>(uint(m.calls)%64))&1 == 1 {
+		e := cremerrors.New("Validation Errors")
+		e.AddMessage("declared invalid by the harness")
+		return false, e
+	}
+	return true, nil
 }
 
 func currentTemperature(e explorer.Explorer) (float64, bool) {
@@ -264,6 +282,10 @@ func runAnnealCase(c *Ctx, ac annealCase) {
 		switch ac.expl {
 		case "kirk":
 			ann.SetModel(dumb.NewModel())
+		case "kirki":
+			// the same explorer over a model that declares some proposals invalid (as the catchment model does at a limit):
+			// an invalid proposal is still one iteration and one cooling step
+			ann.SetModel(&invalidatingDumb{Model: dumb.NewModel(), pattern: 0xB6D3_5A96_C3E1_7D25 ^ uint64(ac.N)*0x9E3779B97F4A7C15})
 		case "supp", "avg":
 			ann.SetModel(modumb.NewModel().WithParameters(parameters.Map{"NumberOfPlanningUnits": int64(4)}))
 		}
@@ -518,7 +540,7 @@ var annealLineups = []string{"", "R", "RR", "RRR", "RRRR", "MR", "RMR", "MRR", "
 func annealRandomCase(r *Rng, thorough bool) annealCase {
 	ac := annealCase{site: "none", modulo: 1}
 	ac.annealer = []string{"simple", "elapsed"}[r.Intn(2)]
-	ac.expl = []string{"null", "kirk", "kirk", "supp", "avg"}[r.Intn(5)]
+	ac.expl = []string{"null", "kirk", "kirki", "supp", "avg"}[r.Intn(5)]
 	switch r.Intn(6) {
 	case 0:
 		ac.N = 0
